@@ -54,6 +54,9 @@ def case_strategy(fmt, big):
             # every dialect twice as often as the standard encoding
             "vendor": st.sampled_from([v for v in V.VENDORS if v != "standard"] * 2 + ["corrupted", "corrupted", "standard"]),
             "norm_threshold": st.sampled_from([1e-4, 1e-4, 1e-6, 1e-5, 1e-3, 1e-2]),
+            # Molden: alpha and beta orbitals interleaved in the [MO] section (each orbital carries
+            # its own Spin= label, so any order is standard-conforming)
+            "interleave": st.sampled_from([False, False, True]),
             "corrupt_seed": st.integers(0, 2**16),
         }
     )
@@ -61,6 +64,8 @@ def case_strategy(fmt, big):
 
 def _is_core(mod, model_spec):
     try:
+        if "spin_order" in model_spec:
+            model_spec = dict(model_spec, spin_order="blocks")  # decided separately ("interleave")
         return bool(mod.core(model_spec, mod.build(model_spec)))
     except Exception:  # noqa: BLE001
         return False
@@ -92,6 +97,8 @@ def check_case(spec, tmpdir):
     fmt = spec["fmt"]
     mod = importlib.import_module(f"ivp.oracles.specwriters.{fmt}")
     vendor = spec["vendor"]
+    if spec.get("interleave") and fmt == "molden" and "spin_order" in spec["model"]:
+        spec = dict(spec, model=dict(spec["model"], spin_order="interleaved"))
     if vendor != "standard":
         # the statement quantifies over *complete* orthonormal orbital sets: with fewer orbitals
         # than basis functions a deviation in an unused function is undetectable in principle
@@ -101,8 +108,10 @@ def check_case(spec, tmpdir):
         spec = dict(spec, model=mspec)
     model = mod.build(spec["model"])
     labels = [f"fmt:{fmt}", f"vendor:{vendor}"]
-    if not mod.core(spec["model"], model):
+    if not _is_core(mod, spec["model"]):
         return [], False, labels + ["noncore_model_skipped"]
+    if spec.get("interleave") and fmt == "molden":
+        labels.append("spins_interleaved")
     standard = mod.write(model)
     if vendor == "corrupted":
         text = corrupted_text(mod, model, spec["corrupt_seed"])
